@@ -5,6 +5,7 @@ from ..alg import Rat, C
 from ..model import AnalysisError, Ext, stmt_text
 from ..symval import Evaluator, Tup, Obj, NoneV, NONE, CallV, Bool, Ref, IteV, Str, _single_atom
 from ..symcheck import Oracle, sym_ellipsoid, sym_projection, check_equal, compare_values, show
+from . import common
 from ..rules import ThreadRule, where, optnum_rule, defassign, defassign_rule
 from ..mutate import replace_in_function, substitute
 
@@ -146,8 +147,125 @@ def string_field_verdict(repo, got, want):
     return 'equal', 'fields that test the hemisphere label agree for each label geo2grid can return (%s)' % (dom,)
 
 
+def type_field_verdict(got, want):
+    """a field that is a newly built angle OBJECT where the reference holds a number (or the reverse): the requested notation is not delivered"""
+    if not (isinstance(got, Obj) and isinstance(want, Obj) and got.cls is not None and want.cls is not None and got.cls.key == want.cls.key):
+        return None
+    for k in sorted(set(got.fields) & set(want.fields)):
+        a, b = got.fields[k], want.fields[k]
+        a_ = a.rat if isinstance(a, CallV) else a
+        b_ = b.rat if isinstance(b, CallV) else b
+        for x, y, side in ((a_, b_, 'code'), (b_, a_, 'reference')):
+            if isinstance(x, Obj) and x.cls is not None and not x.origin and isinstance(y, Rat):
+                return '%s: the %s holds a %s object, the %s a plain number (%s)' % (k, side, x.cls.name, 'reference' if side == 'code' else 'code', show(y, 1, 60))
+    return None
+
+
+def hemisphere_numeric_verdict(repo, got, want):
+    """hemi_north derived from the latitude on one side and from geo2grid's label on the other: geo2grid's own rule for the label is read off
+    its code (label as a conditional string in the latitude) and both sides are evaluated at latitudes -1, -0.0/0, +1 degrees"""
+    from ..symcheck import truth_under
+    from .. import guards
+    from fractions import Fraction as F
+    if not (isinstance(got, Obj) and isinstance(want, Obj)) or 'hemi_north' not in got.fields or 'hemi_north' not in want.fields:
+        return None
+    a, b = got.fields['hemi_north'], want.fields['hemi_north']
+    if compare_values(a, b) == 'equal':
+        return None
+    # the label generator of the reference side
+    gen = None
+    rats = []
+
+    def walk(v):
+        if isinstance(v, IteV):
+            walk(v.cond); walk(v.a); walk(v.b)
+        elif isinstance(v, Rat):
+            rats.append(v)
+    walk(a); walk(b)
+    for r_ in rats:
+        for i in r_.atoms(deep=True):
+            at = alg.TABLE.atoms[i]
+            if at.kind == 'fn' and at.name == 'item' and len(at.args) == 2 and isinstance(at.args[0], Rat) and isinstance(at.args[1], Rat) and at.args[1].is_zero():
+                ca = _single_atom(at.args[0])
+                if ca is not None and ca.kind == 'fn' and ca.name == 'call:geo2grid' and isinstance(ca.args[0], Rat):
+                    gen = (Rat.atom(at), ca.args[0])
+    if gen is None:
+        return None
+    g2g = repo.func('geodepy.convert', 'geo2grid')
+    ev = Evaluator(repo, opaque={'psfandgridconv', 'alpha_coeff', 'rect_radius'})
+    try:
+        val = ev.call_function(g2g, {g2g.params[0].name: Rat.sym('hv.lat'), g2g.params[1].name: Rat.sym('hv.lon'), g2g.params[2].name: C(0)})
+    except Exception:
+        return None
+    lab = val.items[0] if isinstance(val, Tup) and val.items else None
+    lat_arg = gen[1]
+    la = _single_atom(lat_arg)
+    if lab is None or la is None or la.kind != 'sym':
+        return None
+    hv = alg.TABLE.sym('hv.lat').id
+
+    def label_at(v):
+        x = lab
+        for _ in range(8):
+            if isinstance(x, Str):
+                return x.s
+            if not isinstance(x, IteV) or not isinstance(x.cond, Rat):
+                return None
+            t = guards.numeval(x.cond, {hv: F(v)})
+            if t is None:
+                # the label follows the sign of the computed northing: evaluate the form in floating point (rectifying radius: any positive number)
+                env = {hv: float(v)}
+                for k_ in x.cond.atoms(deep=True):
+                    at_ = alg.TABLE.atoms[k_]
+                    if at_.kind == 'fn' and at_.name.startswith('call:'):
+                        env[k_] = 6367449.0
+                    elif at_.kind == 'fn' and at_.name == 'item':
+                        env[k_] = 1.0e-4          # a series coefficient: small against the leading term, the sign of the northing is the latitude's
+                    elif at_.kind == 'sym' and at_.name not in ('pi', 'hv.lat'):
+                        env[k_] = 147.0 if 'lon' in at_.name else 0.5
+                try:
+                    t = 1 if abs(alg.evalf(x.cond, env)) != 0 else 0
+                except Exception:
+                    return None
+            x = x.a if t != 0 else x.b
+        return None
+
+    def truth(v_, latv, label):
+        if isinstance(v_, Bool):
+            return v_.b
+        t = truth_under(v_, [(gen[0], label)])
+        if t is not None:
+            return t
+        if isinstance(v_, Rat):
+            n = guards.numeval(v_, {la.id: F(latv)})
+            return None if n is None else (n != 0)
+        return None
+    for latv in (-1, 0, 1):
+        label = label_at(latv)
+        if label is None:
+            return None
+        ta, tb = truth(a, latv, label), truth(b, latv, label)
+        if ta is None or tb is None:
+            return None
+        if ta != tb:
+            return 'hemi_north: at latitude %s geo2grid labels the point %r (northing measured from the equator without false northing), the reference sets hemi_north=%s, the code sets %s - a point exactly on the equator gets a southern false origin with a northern northing' % (
+                latv, label, tb, ta)
+    return ''
+
+
 def compare_objs(rep, rule, key, w, got, want, what, repo=None):
     r = compare_values(got, want)
+    if r == 'unknown' and repo is not None:
+        hv_ = hemisphere_numeric_verdict(repo, got, want)
+        if hv_:
+            rep.violated(rule, key, w, what + ': differs from the reference in ' + hv_, expected=show(want, 2, 300), actual=show(got, 2, 300))
+            return 'different'
+    if r == 'unknown':
+        tv = type_field_verdict(got, want)
+        if tv:
+            rep.violated(rule, key, w, what + ': differs from the reference in ' + tv + ' - comparisons and arithmetic written for the requested notation fail on it',
+                         expected=show(want, 2, 300), actual=show(got, 2, 300))
+            return 'different'
     if r == 'unknown' and repo is not None:
         r2, note = string_field_verdict(repo, got, want)
         if r2 == 'equal':
@@ -398,6 +516,26 @@ def typed_dispatch_rules(repo, rep, f):
                             elif ok:
                                 rep.violated('R-UNITS', key, where(f, st), 'the %s branch converts with .%s(); the method producing %s is .%s()' % (target, v.func.attr, target, want),
                                              expected='.%s()' % want, actual='.%s()' % v.func.attr)
+                            elif isinstance(v, ast.Call) and isinstance(v.func, ast.Name) and v.func.id in ('float', 'int') and len(v.args) == 1 \
+                                    and stmt_text(v.args[0]) == 'self.%s' % st.targets[0].id[4:]:
+                                # float(<angle object>) is the object's __float__: its OWN notation as a number (HP digits, gradians), and the
+                                # classes without __float__ raise TypeError - decimal degrees only where __float__ returns what dec() returns
+                                angm = repo.module('geodepy.angles')
+                                badc = []
+                                for cn in common.ANGLE_CLASSES:
+                                    c_ = angm.classes.get(cn)
+                                    fl_, de_ = (c_.methods.get('__float__'), c_.methods.get('dec')) if c_ is not None else (None, None)
+                                    rf = [stmt_text(x.value) for x in ast.walk(fl_.node) if isinstance(x, ast.Return) and x.value is not None] if fl_ is not None else None
+                                    rd = [stmt_text(x.value) for x in ast.walk(de_.node) if isinstance(x, ast.Return) and x.value is not None] if de_ is not None else None
+                                    if rf is None:
+                                        badc.append('%s has no __float__ (TypeError)' % cn)
+                                    elif rf != rd and not (len(rf) == 1 and rf[0] in ('self.dec()',)):
+                                        badc.append('%s.__float__ returns %s, not its decimal degrees' % (cn, rf[0] if rf else '?'))
+                                if target == 'float' and not badc:
+                                    rep.holds('R-UNITS', key, where(f, st), 'float(angle object) is decimal degrees for every angle class')
+                                else:
+                                    rep.violated('R-UNITS', key, where(f, st), 'the %s branch converts with %s: %s' % (target, stmt_text(v)[:30], '; '.join(badc[:4]) or 'float() is not the %s notation' % target),
+                                                 expected='.%s()' % want, actual=stmt_text(v)[:40])
                             else:
                                 rep.undecided('R-UNITS', key, where(f, st), 'conversion not of the form self.lat.<method>(): %s' % stmt_text(v)[:60])
             cur = cur.orelse[0] if len(cur.orelse) == 1 and isinstance(cur.orelse[0], ast.If) else None
